@@ -148,7 +148,9 @@ async def fetch_policy(rec):
     std = scripts.std_cfgs()
     runs = []
     mib = [bytes([43, 6, 1, 4, 1, 206, 15, 5, i]) for i in range(1, 4)]
-    for cn in ("v1", "v2c", "v3-md5"):
+    for cn in ("v1", "v2c", "v3-md5", "v2c-auto", "v3-md5-auto", "v3-noauth-auto"):
+        auto = cn.endswith("-auto")            # protocol version left to the documented default (v3 iff a user is given)
+        cn = cn[:-5] if auto else cn
         for allow in (True, False):
             for kind in ("async", "sync"):
                 a = rec.n
@@ -156,9 +158,9 @@ async def fetch_policy(rec):
                 agent = ag.Agent(engine=cfg.engine or None) if cfg.engine else ag.Agent()
                 holder = {}
                 if kind == "async":
-                    api = await apidrv.AsyncApi.create(rec, cfg, lambda req: holder["r"](req), timeout=0.3, allow_bulk=allow, max_repetitions=7)
+                    api = await apidrv.AsyncApi.create(rec, cfg, lambda req: holder["r"](req), timeout=0.3, allow_bulk=allow, max_repetitions=7, auto_version=auto)
                 else:
-                    api = apidrv.SyncApi(rec, cfg, lambda req: holder["r"](req), timeout=0.3, allow_bulk=allow, max_repetitions=7)
+                    api = apidrv.SyncApi(rec, cfg, lambda req: holder["r"](req), timeout=0.3, allow_bulk=allow, max_repetitions=7, auto_version=auto)
                 holder["r"] = walks.honest_responder(agent, api.cfgref, mib, 3)
                 expect_bulk = allow and cfg.ver != "v1"
                 if kind == "async":
@@ -166,7 +168,7 @@ async def fetch_policy(rec):
                 else:
                     walks.walk_sync(api, "getbulk" if expect_bulk else "getnext", "1.3.6.1.4.1.9999.5", 7 if expect_bulk else None, honest=True, mib=mib, fetch=True)
                 api.close()
-                runs.append((a, rec.n, dict(kind="fetch", cfg=cn, allow_bulk=allow, client=kind)))
+                runs.append((a, rec.n, dict(kind="fetch", cfg=cn, allow_bulk=allow, client=kind, auto_version=auto)))
     return runs
 
 
